@@ -388,4 +388,155 @@ theorem loop3_free (f : List ℝ → ℝ) {params B : PList ℝ} (hF : Free f pa
         have e : i0 + (k + 1) = i0 + 1 + k := by omega
         rw [e]; exact this
 
+
+theorem Skel.nocon {l ref : PList ℝ} (h : Skel l ref) (hn : ∀ b ∈ ref, b.con = none) : ∀ p ∈ l, p.con = none := by
+  unfold Skel at h
+  induction h with
+  | nil => intro p hp; cases hp
+  | @cons a c l1 l2 hac _ ih =>
+    intro p hp
+    rcases List.mem_cons.mp hp with rfl | hp'
+    · rw [hac.2.2]; exact hn c (List.mem_cons_self ..)
+    · exact ih (fun x hx => hn x (List.mem_cons_of_mem _ hx)) p hp'
+
+theorem setValueOf_nocon : ∀ (l : PList ℝ) (n : Name) (v : ℝ) (e : Exc), (∀ p ∈ l, p.con = none) → n ∈ names l →
+    setValueOf l n v ≠ .error e := by
+  intro l
+  induction l with
+  | nil => intro n v e _ hm; simp [names] at hm
+  | cons a r ih =>
+    intro n v e hn hm h
+    unfold setValueOf at h
+    split at h
+    · split at h
+      · cases h
+      · rename_i e2 he2
+        have := (setValue_error a v e2 he2).2
+        rw [violates_nocon a (hn a (List.mem_cons_self ..))] at this; cases this
+    · rename_i hne
+      split at h
+      · cases h
+      · rename_i e2 he2
+        have hne' : a.name ≠ n := by simpa using hne
+        have hm' : n ∈ names r := by
+          simp only [names, List.map_cons, List.mem_cons] at hm
+          rcases hm with hm | hm
+          · exact absurd hm.symm hne'
+          · exact hm
+        exact ih n v e2 (fun x hx => hn x (List.mem_cons_of_mem _ hx)) hm' he2
+
+theorem matchLoop_nocon (pl : PList ℝ) : ∀ (own : PList ℝ) (ch : Bool), (∀ p ∈ own, p.con = none) →
+    ∀ e, matchLoop own pl ch ≠ .error e := by
+  induction pl with
+  | nil => intro own ch _ e h; simp [matchLoop] at h
+  | cons q qs ih =>
+    intro own ch hn e h
+    unfold matchLoop at h
+    split at h
+    next => exact ih _ _ hn e h
+    next p hp =>
+      split at h
+      · split at h
+        next own1 hs1 =>
+          exact ih _ _ ((setValueOf_gen' own own1 q.name q.value hs1).1.nocon hn) e h
+        next e' hs1 =>
+          have hp' := find?_some hp
+          exact setValueOf_nocon own q.name q.value e' hn (by rw [← hp'.2]; exact List.mem_map_of_mem hp'.1) hs1
+      · exact ih _ _ hn e h
+
+/-- `setParameters` without any constraint on the wrapped function's side never raises -/
+theorem setParameters_nocon (f : List ℝ → ℝ) (fn : Fn ℝ) (pl : PList ℝ) (h : ∀ p ∈ fn.params, p.con = none) :
+    (fn.setParameters f pl).2 = none := by
+  simp only [Fn.setParameters, Fn.matchPV, anyViolation_nocon fn.params pl h]
+  simp only [Bool.false_eq_true, if_false]
+  cases hm : matchLoop fn.params pl false with
+  | ok r => rcases r with ⟨own, ch⟩; cases ch <;> simp
+  | error e => exact absurd hm (matchLoop_nocon pl fn.params false h e)
+
+theorem finish_free (f : List ℝ → ℝ) (params : PList ℝ) (lastVar : Option Name) (w : W ℝ)
+    (hn : ∀ p ∈ w.fn.params, p.con = none) (hl : ∀ l, lastVar = some l → has params l = true) :
+    (finish f params lastVar false w).2 = none ∧ (finish f params lastVar false w).1.der1 = w.der1 ∧
+    (finish f params lastVar false w).1.der2 = w.der2 ∧ (finish f params lastVar false w).1.cross = w.cross := by
+  unfold finish
+  simp only []
+  cases lastVar with
+  | none => exact ⟨rfl, rfl, rfl, rfl⟩
+  | some l =>
+    simp only [Bool.false_eq_true, if_false]
+    obtain ⟨q, hq⟩ : ∃ q, find? params l = some q := by
+      cases hf : find? params l with
+      | none => exact absurd ((has_iff params l).mp (hl l rfl)) (find?_none hf)
+      | some q => exact ⟨q, rfl⟩
+    rw [subNames_one params l q hq]
+    simp only []
+    refine ⟨setParameters_nocon f _ _ ?_, trivial, trivial, trivial⟩
+    simpa using hn
+
+
+/-- `updateDerivatives` of the three-point scheme on the nominal path (no cross derivatives) -/
+theorem update3_free (f : List ℝ → ℝ) (w : W ℝ) (params : PList ℝ) (hown : Own w.fn) (hok : w.fn.OK f)
+    (hF : Free f params w.fn.params) (hpnd : (names params).Nodup) (hc1 : w.c1 = true) (hcx : w.cx = false)
+    (hvars : w.vars.Nodup) (hin : ∀ v ∈ w.vars, has params v = true → v ∈ names w.fn.params) (hh : 0 < w.h)
+    (hl1 : w.der1.length = w.vars.length) (hl2 : w.der2.length = w.vars.length) :
+    (update3 f w params).2 = none ∧
+    ∀ k (hk : k < w.vars.length), has params w.vars[k] = true →
+      (update3 f w params).1.der1[k]? = some (three1 f w.fn.params w.h w.vars[k]) ∧
+      (update3 f w params).1.der2[k]? = some (three2 f w.fn.params w.h (f (values w.fn.params)) w.vars[k]) := by
+  have hc := hF.ctx
+  unfold update3
+  by_cases hne : w.vars.length > 0
+  · have hcond : (w.c1 && decide (w.vars.length > 0)) = true := by simp [hc1, hne]
+    rw [if_pos hcond]
+    simp only []
+    have hown0 : Own ((w.fn.enable1 false).enable2 false) := by unfold Own; simp; exact hown
+    have hok0 : ((w.fn.enable1 false).enable2 false).OK f := enable2_OK f _ _ (enable1_OK f _ _ hok)
+    have hnc0 : ∀ p ∈ ((w.fn.enable1 false).enable2 false).params, p.con = none := by simpa using hF.nocon
+    have h0 := first_set f ((w.fn.enable1 false).enable2 false) hown0 hok0 (by simpa using hc.sync) hpnd
+    have hn0 := setParameters_nocon f ((w.fn.enable1 false).enable2 false) params hnc0
+    rcases hs1 : ((w.fn.enable1 false).enable2 false).setParameters f params with ⟨fn1, e1⟩
+    rw [hs1] at h0 hn0
+    simp only [] at hn0
+    subst hn0
+    obtain ⟨g1, g2, g3, _, _⟩ := h0
+    simp only [] at g1 g2 g3
+    have hp1 : fn1.params = w.fn.params := by have := g1 trivial; simpa using this
+    have hval : fn1.fval = f (values w.fn.params) := by rw [← hp1]; exact g2
+    simp only []
+    have htb : tooBig fn1.fval = false := by rw [hval]; exact hF.bounded _
+    rw [htb]
+    simp only [Bool.false_eq_true, if_false]
+    have hLI0 : LI f params w.fn.params { w with fn := fn1, f2 := fn1.fval } (fun w => w.f2)
+        { w := { w with fn := fn1, f2 := fn1.fval }, p := [], lastVar := none } :=
+      ⟨g2, (by rw [hp1]; exact Dev.refl _ _), (fun l h => by cases h), Frame.refl _, rfl⟩
+    obtain ⟨r1, r2, r3, r4, r5, _, r7⟩ := loop3_free f hF (w0 := { w with fn := fn1, f2 := fn1.fval }) hh w.vars 0 _ hLI0
+      (fun l h => by cases h) hvars hin
+    rcases hl : loopGo (step3 f params) w.vars 0 { w := { w with fn := fn1, f2 := fn1.fval }, p := [], lastVar := none } with ⟨lp, e⟩
+    rw [hl] at r1 r2 r3 r4 r5 r7
+    simp only [] at r1 r2 r3 r4 r5 r7
+    subst r1
+    simp only []
+    have hcx' : lp.w.cx = false := by rw [r2.2.2.2.1.cx]; exact hcx
+    rw [hcx']
+    simp only [Bool.false_eq_true, if_false]
+    have hnl : ∀ p ∈ lp.w.fn.params, p.con = none := r2.2.1.nocon hF.nocon
+    obtain ⟨q1, q2, q3, _⟩ := finish_free f params lp.lastVar lp.w hnl r2.2.2.1
+    refine ⟨q1, ?_⟩
+    intro k hk hhk
+    obtain ⟨a, b⟩ := r7 k hk hhk
+    rw [q2, q3]
+    simp only [Nat.zero_add] at a b
+    rw [hval] at b
+    exact ⟨a (by rw [hl1]; exact hk), b (by rw [hl2]; exact hk)⟩
+  · have hcond : (w.c1 && decide (w.vars.length > 0)) = false := by simp [hne]
+    rw [hcond]
+    simp only [Bool.false_eq_true, if_false]
+    have hnc0 : ∀ p ∈ ((w.fn.enable1 w.c1).enable2 w.c2).params, p.con = none := by simpa using hF.nocon
+    have hn0 := setParameters_nocon f ((w.fn.enable1 w.c1).enable2 w.c2) params hnc0
+    rcases hs1 : ((w.fn.enable1 w.c1).enable2 w.c2).setParameters f params with ⟨fn1, e1⟩
+    rw [hs1] at hn0
+    simp only [] at hn0
+    subst hn0
+    simp only []
+    exact ⟨trivial, fun k hk => absurd hk (by omega)⟩
+
 end Bpp.NumDeriv
